@@ -283,8 +283,10 @@ def finish(prop, level, tier, seed, t0, agg, rule, evaluations, distinct_nontriv
     coverage["known_findings_observed"] = sorted(known_hit.keys())
     ev = dict(property_id=prop, tier=tier, seed=int(seed), level=level, coverage=coverage,
               assumptions=assumptions or [], wall_s=round(time.time() - t0, 2), violations=len(new))
-    os.makedirs(os.path.join(VERIF, "evidence"), exist_ok=True)
-    with open(os.path.join(VERIF, "evidence", prop + ".json"), "w") as f:
+    # checks against seeded/mutated scratch copies (lib/seedrun.py) must not overwrite the committed evidence
+    evdir = os.environ.get("VERIF_EVIDENCE_DIR") or os.path.join(VERIF, "evidence")
+    os.makedirs(evdir, exist_ok=True)
+    with open(os.path.join(evdir, prop + ".json"), "w") as f:
         json.dump(ev, f, indent=1, sort_keys=True)
         f.write("\n")
 
